@@ -421,10 +421,11 @@ def register(reg):
                 "reactions[id2idx_map[v]][self.id_col] == v and let(id2idx_map[v], lambda i: not truthy(old(reactions[i][self.solved_col])))))",
                 "forall(range(0, len(reactions)), lambda j: implies(not {U}, same_map({R}, old(mapof({R})))))".format(U=UNS, R=R),
                 "forall(range(0, len(reactions)), lambda j: implies({U}, forall(STR, lambda k: implies(k != self.mcs_data_col and k != self.issue_col, {R}[k] == old({R}[k]) and (k in {R}) == old(k in {R})))))".format(U=UNS, R=R),
-                "forall(range(0, len(reactions)), lambda j: implies({U}, self.mcs_data_col in {R} and self.issue_col in {R} and "
-                "((is_none({R}[self.mcs_data_col]) and {R}[self.issue_col] == 'No MCS identified.') or "
-                "(is_ref({R}[self.mcs_data_col]) and let(as_row({R}[self.mcs_data_col]), lambda m: in_list(m, mcs_results) and index_in(m, mcs_results) < _i and "
-                "m[self.id_col] == {R}[self.id_col] and {R}[self.issue_col] == m[self.issue_col])))))".format(U=UNS, R=R),
+                "forall(range(0, len(reactions)), lambda j: implies({U}, self.mcs_data_col in {R} and self.issue_col in {R} and (is_none({R}[self.mcs_data_col]) or is_ref({R}[self.mcs_data_col]))))".format(U=UNS, R=R),
+                "forall(range(0, len(reactions)), lambda j: implies({U} and is_none({R}[self.mcs_data_col]), {R}[self.issue_col] == 'No MCS identified.'))".format(U=UNS, R=R),
+                "forall(range(0, len(reactions)), lambda j: implies({U} and is_ref({R}[self.mcs_data_col]), let(as_row({R}[self.mcs_data_col]), lambda m: in_list(m, mcs_results) and index_in(m, mcs_results) < _i)))".format(U=UNS, R=R),
+                "forall(range(0, len(reactions)), lambda j: implies({U} and is_ref({R}[self.mcs_data_col]), let(as_row({R}[self.mcs_data_col]), lambda m: m[self.id_col] == {R}[self.id_col])))".format(U=UNS, R=R),
+                "forall(range(0, len(reactions)), lambda j: implies({U} and is_ref({R}[self.mcs_data_col]), let(as_row({R}[self.mcs_data_col]), lambda m: {R}[self.issue_col] == m[self.issue_col])))".format(U=UNS, R=R),
             ]},
             2: {"inv": [
                 "forall(ROW, lambda r: implies(not (r is mcs_result), same_map(r, at('loop2', mapof(r)))))",
